@@ -371,6 +371,15 @@ def run(facts, rep, ctx):
                     if s[0] == "call" and s[1].startswith("mila::localization::"):
                         sb = facts.body(s[1])
                         if sb:
+                            # the sub-helper must hand the component back as it is
+                            try:
+                                for sp in enum_paths(facts.ibody(s[1], combinators=True)):
+                                    if sp.end == "ret" and is_err_term(sp.ret) is False and sp.ret[0] == "agg" and sp.ret[4]:
+                                        dc2 = direct_component(sp.ret[4][0], path_param=1)
+                                        if dc2 and dc2.startswith("transformed-by"):
+                                            return dc2 + " (in %s)" % s[1].rsplit("::", 1)[-1]
+                            except PathLimit:
+                                pass
                             for bb2, t2 in sb.calls():
                                 n2 = callee_names(t2)[1] or ""
                                 if n2 == "std::path::Path::parent":
